@@ -116,11 +116,18 @@ def rigid_graphs(n):
     import os, pickle
     path = os.path.join(core.ROOT, ".cache", f"rigid{n}.pkl")
     if os.path.exists(path):
-        return pickle.load(open(path, "rb"))
+        try:
+            with open(path, "rb") as f:
+                return pickle.load(f)
+        except Exception:
+            pass                                    # unreadable cache: recompute
     reps = G.orbit_table(n)[1]
     out = [g for g in reps if self_solution_count(n, G.adj_from_id(n, g)) == 1]
     os.makedirs(os.path.dirname(path), exist_ok=True)
-    pickle.dump(out, open(path, "wb"))
+    tmp = path + f".{os.getpid()}.tmp"
+    with open(tmp, "wb") as f:
+        pickle.dump(out, f)
+    os.replace(tmp, path)                           # atomic: concurrent checks never see a partial file
     return out
 
 
